@@ -195,6 +195,20 @@ func scanLazyRed(c *core.Ctx) []ob {
 			if !ok {
 				return true
 			}
+			// `ringP != nil && cnt%M != 0`: the pacing test is the conjunct that looks at the counter
+			for be.Op == token.LAND {
+				pick := be.Y
+				if yb, ok := unparen(be.Y).(*ast.BinaryExpr); !ok || !strings.Contains(exprString(yb), "%") {
+					if xb, ok := unparen(be.X).(*ast.BinaryExpr); ok && strings.Contains(exprString(xb), "%") {
+						pick = be.X
+					}
+				}
+				nb, ok := unparen(pick).(*ast.BinaryExpr)
+				if !ok {
+					return true
+				}
+				be = nb
+			}
 			mod, ok := unparen(be.X).(*ast.BinaryExpr)
 			if !ok || mod.Op != token.REM {
 				// the count-and-reset spelling: `cnt++; if cnt == M { reduce; cnt = 0 }` … `if cnt != 0 { reduce }`
